@@ -321,7 +321,23 @@ def run_check(mod, prop, tier, seed, replay=None):
                                     'detail': 'changed=%s missing=%s' % (changed, missing)})
         # 2. suites
         for fn in mod.SUITES:
-            s = fn(ctx)
+            try:
+                s = fn(ctx)
+            except Infra:
+                raise
+            except Exception as e:  # noqa
+                # an exception the harness did not foresee: if the innermost frame is library code, the implementation raised where the
+                # unchanged code returns a value -> reported as a violation with the traceback as replay; otherwise it is a harness fault
+                import traceback
+                tb = traceback.extract_tb(e.__traceback__)
+                inner = tb[-1].filename if tb else ''
+                text = ''.join(traceback.format_exception(type(e), e, e.__traceback__))[-3000:]
+                if os.path.realpath(inner).startswith(os.path.realpath(REPO) + os.sep):
+                    s = Suite(getattr(fn, '__name__', 'suite'))
+                    s.fail({'site': '%s:%d %s' % (os.path.relpath(inner, REPO), tb[-1].lineno, tb[-1].name), 'input': 'see traceback', 'class': 'unforeseen exception',
+                            'observed': '%s: %s' % (type(e).__name__, e), 'required': 'the behaviour of the unchanged code (a value or a documented exception)', 'traceback': text})
+                else:
+                    raise Infra('suite %s crashed in the harness:\n%s' % (getattr(fn, '__name__', '?'), text))
             suites.append(s)
             obligations.append({'name': 'suite ' + s.name, 'kind': 'suite', 'ok': not s.divergences,
                                 'detail': ('%d divergences' % len(s.divergences)) if s.divergences else ''})
